@@ -34,7 +34,7 @@ int Transpose::compare(const Basic &o) const
 {
     SYMENGINE_ASSERT(is_a<Transpose>(o));
 
-    return arg_->compare(*down_cast<const Transpose &>(o).arg_);
+    return arg_->__cmp__(*down_cast<const Transpose &>(o).arg_);
 }
 
 vec_basic Transpose::get_args() const
